@@ -113,7 +113,7 @@ const SJIS: &[(&str, &[u8])] = &[
 
 /// kinds of input: which bytes are on disk
 const KINDS: &[&str] = &[
-    "u16le-bom", "u16be-bom", "u16le", "u16be", "u8-bom", "u8", "latin1", "sjis", "u16le-bom2", "u8-bom2", "u16le-odd", "u16be-bom-odd", "sjis-all",
+    "u16le-bom", "u16be-bom", "u16le", "u16be", "u8-bom", "u8", "latin1", "sjis", "u16le-bom2", "u8-bom2", "u16le-odd", "u16be-bom-odd", "tiny", "tiny", "sjis-all",
 ];
 /// configurations: what the user asks for
 const CFGS: &[&str] = &["auto", "none", "utf-8", "utf-16le", "utf-16be", "latin1", "shift_jis"];
@@ -187,6 +187,15 @@ fn build_input(seed: u64, kind: &str, malformed: bool, big: bool) -> Input {
                 }
                 bytes.push(b'\n');
             }
+        }
+        "tiny" => {
+            // 0-4 bytes: only a mark, a truncated mark, a mark and one byte
+            const TINY: &[&[u8]] = &[
+                b"", b"\xFF", b"\xFE", b"\xEF", b"\xFF\xFE", b"\xFE\xFF", b"\xEF\xBB", b"\xEF\xBB\xBF", b"\xFF\xFE\x61",
+                b"\xFE\xFF\x00", b"\xFF\xFE\x0A\x00", b"\xFE\xFF\x00\x0A", b"\xEF\xBB\xBF\x0A", b"\xEF\xBB\xBF\xFF", b"a", b"\x0A", b"\xFF\xFF",
+                b"\xFF\xFE\xFF\xFE", b"\x00\xD8", b"\xFF\xFE\x00\xD8",
+            ];
+            bytes.extend(*rng.pick(TINY));
         }
         "sjis-all" => {
             // every lead/trail pair once, one per line (validates every entry of the model's index table),
@@ -477,7 +486,7 @@ fn run_bin(case: &str, ctx: &mut Ctx, drv: &mut Driver, rep: &mut Report) {
     std::fs::create_dir_all(dir.join("ref")).unwrap();
     std::fs::write(dir.join("enc/f.txt"), &input.bytes).unwrap();
     std::fs::write(dir.join("ref/f.txt"), &reference).unwrap();
-    let pats = ["needle", "é", "\\x{1F600}", "\\x{FFFD}", "日", "\\x{FEFF}", "."];
+    let pats = ["needle", "é", "\\x{1F600}", "\\x{FFFD}", "日", "\\x{FEFF}", ".", "^", ""];
     let mut rng = Rng::new(seed ^ 0xB17);
     let pat = *rng.pick(&pats);
     rep.branch(&format!("bin:kind:{}", kind));
@@ -531,7 +540,7 @@ fn main() {
     let mut drv = Driver::spawn(&args.driver);
     let mut rep = Report::new(
         "C17",
-        "Inputs: UTF-16LE/BE with and without mark, with a second mark, with an odd byte count; UTF-8 with/without mark; \
+        "Inputs: tiny inputs (0-4 bytes: only a mark, truncated marks, a mark and one byte); UTF-16LE/BE with and without mark, with a second mark, with an odd byte count; UTF-8 with/without mark; \
          windows-1252 bytes; shift_jis text (valid and with unpaired leads / invalid trails; once every lead/trail pair); texts mix ASCII, BMP, astral characters, U+FEFF, and (malformed stream, 50%) lone \
          and reversed surrogates / invalid UTF-8 (stray and missing continuations, overlong, encoded surrogates, > U+10FFFF). \
          Configurations auto / none / utf-8 / utf-16le / utf-16be / latin1 / shift_jis, matching or not. lib: fragment sizes 1, 2, 3, 7, \
